@@ -51,7 +51,7 @@ def fn_body(draw, params, horizon):
             ins.append(draw(st.sampled_from(ports)))
         kind = draw(st.sampled_from(["sum", "sum", "acc", "count", "timer"]))
         node = {"id": f"b{j}", "op": "node", "ins": ins, "out": "TS[int]", "coef": [draw(st.integers(1, 3)) for _ in ins],
-                "bias": draw(st.integers(0, 4)), "log_inputs": False}
+                "bias": draw(st.integers(0, 4)), "log_inputs": j == 0}
         if kind == "timer":
             node["fn"] = "count"
             node["sched"] = {"tick": [["s", "rel", draw(st.integers(1, min(6, horizon))), draw(st.sampled_from([None, "a"]))]]}
@@ -779,6 +779,15 @@ def check(case, ctx) -> Result:
                 if gv != ev:
                     res.violations.append(Viol("output_key_set_or_value_wrong", f"t={t}: map output value {gv}, expected {ev}", feats))
                     break
+    # ---- what a child node reads on its inputs is coherent (also for inputs bound "sampled" when the child was created):
+    # modified <=> last_modified_time is this cycle, and a modified input is valid
+    for e in resp["trace"]:
+        if e[0] == "ev" and e[1] != "r" and len(e) > 6 and e[6]:
+            bad = next((i for i in e[6] if isinstance(i, dict) and isinstance(i.get("m"), bool) and isinstance(i.get("lmt"), int) and
+                        ((i["m"] and i["lmt"] != e[4]) or (not i["m"] and i["lmt"] == e[4]) or (i["m"] and not i.get("v")))), None)
+            if bad is not None:
+                res.violations.append(Viol("input_flags_incoherent", f"node {e[3]} in child {e[1]} at t={e[4]} reads an input with modified={bad['m']} valid={bad.get('v')} last_modified_time={bad['lmt']}", feats))
+                break
     # ---- lifecycle: one child graph start per appearance, one stop per removal (and at the end)
     mnode = next((i for i, n in enumerate(resp["graph"]["nodes"]) if n.get("k") == "nested" or "map" in str(n.get("n", "")).lower()), None)
     starts = sum(1 for e in resp["trace"] if e[0] == "gs" and isinstance(e[1], str) and e[1].count("/") == 1)
